@@ -90,6 +90,10 @@ type admActor struct {
 type admPlan struct {
 	Cfg    admCfg     `json:"cfg"`
 	Faulty bool       `json:"faulty"` // plan contains rewrites / deletes / clock jumps
+	// Public: the group is listed publicly; group.Update() then installs the
+	// description it has read itself (a second path by which a description
+	// comes into force)
+	Public bool `json:"public,omitempty"`
 	Actors []admActor `json:"actors"`
 }
 
@@ -219,6 +223,7 @@ func genAdmActor(tp *simrt.Tape, p *admPlan, i, n, room int) admActor {
 func genAdmPlan(tp *simrt.Tape, seed uint64, tier string) any {
 	p := &admPlan{Cfg: genAdmCfg(tp)}
 	p.Faulty = tp.Chance(2, 3)
+	p.Public = p.Faulty && tp.Chance(1, 3)
 	const maxOps = 14
 	total := 0
 	family := tp.Weighted(6, 3, 2)
@@ -605,6 +610,9 @@ func (w *admWorld) descJSON(cfg admCfg, ver int) []byte {
 	d := map[string]any{"users": users, "comment": fmt.Sprintf("version %d", ver)}
 	if cfg.Max > 0 {
 		d["max-clients"] = cfg.Max
+	}
+	if w.p.Public {
+		d["public"] = true
 	}
 	if cfg.Autolock {
 		d["autolock"] = true
